@@ -162,6 +162,28 @@ pub fn threads(sink: &mut Sink, seed: u64, thorough: bool, grp0: u64) {
         let mut ev = set_event(grp, 0, 2, 1000, 0, 1); ev["id"] = json!(sink.id()); sink.emit(&ev);
         for h in handles { for mut e in h.join().unwrap_or_default() { e["id"] = json!(sink.id()); e["grp"] = json!(grp); sink.emit(&e); } }
     }
+    // Burst: far more simultaneous builds than cores (160 threads, released together, each building a version-40 symbol 24 times): pools, free
+    // lists and per-process tables sized for 'a few threads' overflow here.  Every result must equal the first one.
+    {
+        grp += 1;
+        let input: Vec<u8> = { let mut r2 = rng(seed, 43); payload(&mut r2, 2, 2300, true) };       // a version-40 symbol: milliseconds per build, so that builds really overlap
+        let shared = Arc::new({ let mut b = QRBuilder::new(input.clone()); apply_set(&mut b, 0, 1); b });
+        let nthreads = if thorough { 400 } else { 160 };
+        let barrier = Arc::new(std::sync::Barrier::new(nthreads));
+        let handles: Vec<_> = (0..nthreads).map(|t| { let (shared, barrier) = (shared.clone(), barrier.clone()); std::thread::Builder::new().stack_size(2 << 20).spawn(move || {
+            barrier.wait();
+            let mut outs: Vec<Value> = Vec::new();
+            for k in 0..24 { let mut o = build_out(&shared); if let Some(m) = o.as_object_mut() { m.remove("vals"); m.remove("types"); } if k == 0 || k == 23 || o["kind"] != "Ok" { outs.push(o); } }
+            (t, outs)
+        }) }).filter_map(|h| h.ok()).collect();
+        let id = sink.id();
+        sink.emit(&json!({"ev": "HNew", "id": id, "grp": grp, "tid": 0, "seq": 1, "bid": 1000, "tag": "hnew", "input": input}));
+        let mut ev = set_event(grp, 0, 2, 1000, 0, 1); ev["id"] = json!(sink.id()); sink.emit(&ev);
+        for h in handles { match h.join() {
+            Ok((t, outs)) => for (k, o) in outs.into_iter().enumerate() { let id = sink.id(); sink.emit(&json!({"ev": "HBuild", "id": id, "grp": grp, "tid": 400 + t, "seq": k + 1, "bid": 1000, "tag": "hbuild:burst", "lite": 1, "out": o})); },
+            Err(_) => { let id = sink.id(); sink.emit(&json!({"ev": "HBuild", "id": id, "grp": grp, "tid": 399, "seq": 1, "bid": 1000, "tag": "hbuild:burst", "lite": 1, "out": {"kind": "Panic", "why": "Panic:thread of the burst died"}})); }
+        } }
+    }
     // Teardown: a build and three renderings issued from the destructor of a thread-local of the CALLER while the thread exits - with
     // the caller's thread-local registered before the thread's first build (so whatever the crate keeps per thread is destroyed first)
     // and after it.  Same request as a build in the thread's body: same result.
